@@ -198,6 +198,16 @@ func Implies(a, b *Term) *Term {
 	if b == False {
 		return Not(a)
 	}
+	if same(a, b) {
+		return True
+	}
+	if a.Kind == KApp && a.Op == "and" {
+		for _, x := range a.Args {
+			if same(x, b) {
+				return True
+			}
+		}
+	}
 	return App("=>", SBool, a, b)
 }
 
